@@ -391,6 +391,62 @@ func callsWithArg(rel, fn, callee, arg string) int {
 	return n
 }
 
+// countStmts counts the statements of fn whose source text (single line, gofmt style) equals text.
+func countStmts(rel, fn, text string) int {
+	fd := findFunc(rel, fn)
+	if fd == nil {
+		fatal("function %s not found in %s", fn, rel)
+	}
+	n := 0
+	ast.Inspect(fd.Body, func(nd ast.Node) bool {
+		if st, ok := nd.(ast.Stmt); ok {
+			if _, isBlock := st.(*ast.BlockStmt); !isBlock {
+				var buf bytes.Buffer
+				printer.Fprint(&buf, token.NewFileSet(), st)
+				if strings.TrimSpace(buf.String()) == text {
+					n++
+				}
+			}
+		}
+		return true
+	})
+	return n
+}
+
+// ifBodyHas: fn contains an `if` whose condition (or init; cond) text contains condPart and whose body
+// contains a statement with exactly the text stmt.
+func ifBodyHas(rel, fn, condPart, stmt string) bool {
+	fd := findFunc(rel, fn)
+	if fd == nil {
+		fatal("function %s not found in %s", fn, rel)
+	}
+	found := false
+	ast.Inspect(fd.Body, func(nd ast.Node) bool {
+		is, ok := nd.(*ast.IfStmt)
+		if !ok {
+			return true
+		}
+		var hd bytes.Buffer
+		if is.Init != nil {
+			printer.Fprint(&hd, token.NewFileSet(), is.Init)
+			hd.WriteString("; ")
+		}
+		printer.Fprint(&hd, token.NewFileSet(), is.Cond)
+		if !strings.Contains(hd.String(), condPart) {
+			return true
+		}
+		for _, st := range is.Body.List {
+			var buf bytes.Buffer
+			printer.Fprint(&buf, token.NewFileSet(), st)
+			if strings.TrimSpace(buf.String()) == stmt {
+				found = true
+			}
+		}
+		return true
+	})
+	return found
+}
+
 func (o *out) boolean(name string, v bool, doc string) {
 	fmt.Fprintf(&o.b, "/-- %s -/\ndef %s : Bool := %v\n", doc, name, v)
 }
@@ -524,6 +580,17 @@ func main() {
 	o.boolean("ownIterCopies", allAssignsCopy("leveldb/db_iter.go", "dbIter.next", "i.key") && allAssignsCopy("leveldb/db_iter.go", "dbIter.next", "i.value") &&
 		allAssignsCopy("leveldb/db_iter.go", "dbIter.prev", "i.key") && allAssignsCopy("leveldb/db_iter.go", "dbIter.prev", "i.value"),
 		"`dbIter.next/prev` copy key and value into iterator-owned buffers")
+
+	// lock release facts on error paths (C09)
+	o.b.WriteString("\n/-! Error paths that must give back what they acquired (read off the Go AST). -/\n\n")
+	o.boolean("lkCommitUnlocksOnError", ifBodyHas("leveldb/db_transaction.go", "Transaction.Commit", "cerr != nil", "tr.db.compCommitLk.Unlock()"),
+		"`Transaction.Commit` unlocks `compCommitLk` before returning the commit error")
+	o.boolean("lkOpenTxReleasesOnError", countStmts("leveldb/db_transaction.go", "DB.OpenTransaction", "<-db.writeLockC") >= 2,
+		"`OpenTransaction` takes the write-lock token back on its error returns")
+	o.boolean("lkLargeBatchDiscardsOnCommitError", ifBodyHas("leveldb/db_write.go", "DB.Write", "tr.Commit()", "tr.Discard()"),
+		"`DB.Write` discards the internal transaction when its commit fails")
+	o.boolean("lkSetReadOnlyReleasesOnClose", countStmts("leveldb/db_write.go", "DB.SetReadOnly", "<-db.writeLockC") >= 1,
+		"`SetReadOnly` gives the write-lock token back when it gives up because the DB is closing")
 
 	o.b.WriteString("\nend GoLevel.Gen\n")
 
